@@ -70,8 +70,8 @@ Theorem C03_exits_are_range_events : forall (s : stateT) cut sb rc, build s cut 
   s_meta sb = (s_from sb, u64_sub (s_to sb) (s_from sb) mod 2^32, cert_type).
 Proof. exact (exits_are_range_events hash bev cev b_dc tree start_block start_ler require_events cert_type). Qed.
 
-(* aggchain-prover flow: PARTIAL (model of flow_aggchain_prover.go not tied to the code by a correspondence run);
-   any prover oracle *)
+(* aggchain-prover flow, any prover oracle. build_fep is compared with the REAL AggchainProverFlow by the FEP stream of the
+   harness (scripted prover); PARTIAL for what that stream does not drive (optimistic mode, missing stored proof, ...) *)
 Theorem C03_cert_consistent_fep_partial : forall (t_add_ : tree -> hash -> tree * hash) (root_of : list hash -> hash),
   (forall t x, repr (fst (t_add_ t x)) = repr t ++ [x]) -> (forall t x, snd (t_add_ t x) = root_of (repr t ++ [x])) ->
   forall prover hp (s : stateT) cut sb rc,
